@@ -1,280 +1,2 @@
-/-
-  GENERATED by /verif/translate/gen_logic.py from src/function/backdate.rs, src/function/maybe_changed_after.rs, src/function/fetch.rs — do not edit.
-  Decision logic of impure functions, extracted by anchors (function name + leading text of the
-  condition); field paths and opaque calls are fields of the `…In` structures of abstract values.
-  `Props/GenLogic.lean` proves each definition equal to the corresponding decision of the
-  hand-written models.
--/
-set_option linter.unusedVariables false
-namespace SalsaVerif.Gen.LogicVerify
-
-/-- what `backdate_if_appropriate` looks at (src/function/backdate.rs); `old` = the old memo's header, `new` = the `QueryRevisions` of the new execution -/
-structure BackdateIn where
-  /-- `revisions.cycle_heads().is_empty()` -/
-  newCycleHeadsEmpty : Bool
-  /-- `old_memo.header.may_be_provisional()` -/
-  oldMayBeProvisional : Bool
-  /-- `revisions.durability` -/
-  newDurability : Nat
-  /-- `old_memo.header.revisions.durability` -/
-  oldDurability : Nat
-  /-- `old_memo.value().is_some_and(|old_value| C::values_equal(old_value, value))` -/
-  oldValueEqual : Bool
-  /-- `matches!(old_memo.header.origin(), QueryOriginRef::Assigned(_))` -/
-  oldAssigned : Bool
-  /-- `matches!(revisions.origin(), QueryOriginRef::Assigned(_))` -/
-  newAssigned : Bool
-  /-- `old_memo.header.revisions.changed_at` -/
-  oldChangedAt : Nat
-  /-- `revisions.changed_at (on entry)` -/
-  newChangedAt : Nat
-  /-- `current_revision` -/
-  currentRevision : Nat
-  /-- `old_memo.header.was_cycle_participant()` -/
-  oldWasCycleParticipant : Bool
-
-/-- translated from `MemoHeader::can_backdate (src/function/backdate.rs)` -/
-def can_backdate (b : BackdateIn) : Bool :=
-  ((b.newCycleHeadsEmpty && (!b.oldMayBeProvisional)) && decide (b.newDurability ≥ b.oldDurability))
-
-/-- `old_memo.header.can_backdate(revisions) && old_memo .value() .is_some_and(|old_value| C::values_equal(old_value, value))`  (backdate_if_appropriate, src/function/backdate.rs) -/
-def backdated (b : BackdateIn) : Bool :=
-  ((can_backdate b) && b.oldValueEqual)
-
-/-- `matches!(old_memo.header.origin(), QueryOriginRef::Assigned(_)) && !matches!(revisions.origin(), QueryOriginRef::Assigned(_))`  (backdate_if_appropriate, src/function/backdate.rs) -/
-def source_changed (b : BackdateIn) : Bool :=
-  (b.oldAssigned && (!b.newAssigned))
-
-/-- `old_memo.header.revisions.changed_at`  (backdate_if_appropriate, src/function/backdate.rs) -/
-def source_changed_same_value (b : BackdateIn) : Nat :=
-  b.oldChangedAt
-
-/-- `current_revision`  (backdate_if_appropriate, src/function/backdate.rs) -/
-def source_changed_other_value (b : BackdateIn) : Nat :=
-  b.currentRevision
-
-/-- `old_memo.header.was_cycle_participant() && old_memo.header.revisions.changed_at > revisions.changed_at`  (backdate_if_appropriate, src/function/backdate.rs) -/
-def participant_keeps_stamp (b : BackdateIn) : Bool :=
-  (b.oldWasCycleParticipant && decide (b.oldChangedAt > b.newChangedAt))
-
-/-- `old_memo.header.revisions.changed_at`  (backdate_if_appropriate, src/function/backdate.rs) -/
-def participant_stamp (b : BackdateIn) : Nat :=
-  b.oldChangedAt
-
-/-- `self.revisions.changed_at > revisions.changed_at && !self.was_cycle_participant()`  (MemoHeader::backdate, src/function/backdate.rs) -/
-def backdate_violation (b : BackdateIn) : Bool :=
-  (decide (b.oldChangedAt > b.newChangedAt) && (!b.oldWasCycleParticipant))
-
-/-- `self.revisions.changed_at`  (MemoHeader::backdate, src/function/backdate.rs) -/
-def backdate_to (b : BackdateIn) : Nat :=
-  b.oldChangedAt
-
-/-- `backdate_if_appropriate` assembled along its control-flow skeleton (which the generator
-    compares verbatim with the source): the new `revisions.changed_at` and whether
-    `report_backdate_violation` is called. -/
-def backdate_if_appropriate (b : BackdateIn) : Nat × Bool :=
-  if source_changed b then
-    ((if backdated b then source_changed_same_value b else source_changed_other_value b), false)
-  else if backdated b then (backdate_to b, backdate_violation b)
-  else if participant_keeps_stamp b then (participant_stamp b, false)
-  else (b.newChangedAt, false)
-
-/-- what the verification decisions look at: a memo header (+ whether the memo has a value) and the runtime (src/function/maybe_changed_after.rs, src/function/fetch.rs) -/
-structure MemoIn where
-  /-- `self.verified_at.load()` -/
-  verifiedAt : Nat
-  /-- `zalsa.current_revision()` -/
-  currentRevision : Nat
-  /-- `zalsa.last_changed_revision(·)` -/
-  lastChangedRevision : Nat → Nat
-  /-- `self.revisions.durability` -/
-  durability : Nat
-  /-- `self.revisions.changed_at` -/
-  changedAt : Nat
-  /-- `self.may_be_provisional()` -/
-  mayBeProvisional : Bool
-  /-- `self.validate_may_be_provisional(zalsa, zalsa_local, database_key_index)` -/
-  validateMayBeProvisional : Bool
-  /-- `memo.value.is_some()` -/
-  hasValue : Bool
-  /-- `self.was_cycle_participant()` -/
-  wasCycleParticipant : Bool
-
-/-- discriminant of `ShallowUpdate::Verified` -/
-def ShallowUpdate_Verified : Nat := 0
-
-/-- discriminant of `ShallowUpdate::HigherDurability` -/
-def ShallowUpdate_HigherDurability : Nat := 1
-
-/-- discriminant of `ShallowUpdate::No` -/
-def ShallowUpdate_No : Nat := 2
-
-/-- translated from `ShallowUpdate::yes (src/function/maybe_changed_after.rs)` -/
-def ShallowUpdate.yes (self : Nat) : Bool :=
-  (decide (self = 0) || decide (self = 1))
-
-/-- translated from `MemoHeader::shallow_verify_memo_cold (src/function/maybe_changed_after.rs)` -/
-def shallow_verify_memo_cold (m : MemoIn) (verified_at : Nat) : Nat :=
-  (let last_changed1 := (m.lastChangedRevision m.durability);
-    (if decide (last_changed1 ≤ verified_at) then 1 else 2))
-
-/-- translated from `MemoHeader::shallow_verify_memo (src/function/maybe_changed_after.rs)` -/
-def shallow_verify_memo (m : MemoIn) : Nat :=
-  (let verified_at2 := m.verifiedAt;
-    let revision_now3 := m.currentRevision;
-    if decide (verified_at2 = revision_now3) then 0 else
-    (shallow_verify_memo_cold m verified_at2))
-
-/-- translated from `MemoHeader::update_shallow: `if let ShallowUpdate::HigherDurability = update` (src/function/maybe_changed_after.rs)` -/
-def update_shallow_marks (update : Nat) : Bool :=
-  decide (update = 1)
-
-/-- `can_shallow_update.yes() && !self.may_be_provisional()`  (MemoHeader::maybe_changed_after_hot, src/function/maybe_changed_after.rs) -/
-def hot_applies (m : MemoIn) (can_shallow_update : Nat) : Bool :=
-  ((ShallowUpdate.yes can_shallow_update) && (!m.mayBeProvisional))
-
-/-- `self.revisions.changed_at > revision`  (MemoHeader::maybe_changed_after_hot, src/function/maybe_changed_after.rs) -/
-def hot_changed (m : MemoIn) (revision : Nat) : Bool :=
-  decide (m.changedAt > revision)
-
-/-- `can_shallow_update.yes() && self.validate_may_be_provisional( zalsa, zalsa_local, database_key_index, #[cfg(feature = "detailed-trace")] has_value, )`  (MemoHeader::verify_memo, src/function/maybe_changed_after.rs) -/
-def verify_shallow_applies (m : MemoIn) (can_shallow_update : Nat) : Bool :=
-  ((ShallowUpdate.yes can_shallow_update) && m.validateMayBeProvisional)
-
-/-- `!self.may_be_provisional()`  (MemoHeader::validate_may_be_provisional (first statement: `return true`), src/function/maybe_changed_after.rs) -/
-def validate_not_provisional (m : MemoIn) : Bool :=
-  (!m.mayBeProvisional)
-
-/-- `self.may_be_provisional()`  (MemoHeader::deep_verify_memo, src/function/maybe_changed_after.rs) -/
-def deep_is_provisional (m : MemoIn) : Bool :=
-  m.mayBeProvisional
-
-/-- `cycle_recovery_strategy == CycleRecoveryStrategy::Panic && self.was_cycle_participant()`  (MemoHeader::deep_verify_memo, src/function/maybe_changed_after.rs) -/
-def deep_panic_participant (m : MemoIn) (strategy_is_panic : Bool) : Bool :=
-  (strategy_is_panic && m.wasCycleParticipant)
-
-/-- `self.verified_at.load()`  (MemoHeader::deep_verify_memo, src/function/maybe_changed_after.rs) -/
-def deep_verified_at (m : MemoIn) : Nat :=
-  m.verifiedAt
-
-/-- argument 3 `verified_at` of `deep_verify_edges(…)`  (MemoHeader::deep_verify_memo, src/function/maybe_changed_after.rs) -/
-def deep_edges_old_verified_at (m : MemoIn) : Nat :=
-  (deep_verified_at m)
-
-/-- argument 2 `old_verified_at` of `dependency_index.maybe_changed_after(…)`  (deep_verify_edges, src/function/maybe_changed_after.rs) -/
-def deep_edge_revision (old_verified_at old_changed_at : Nat) : Nat :=
-  old_verified_at
-
-/-- the revision every input edge is compared with by `deep_verify_memo` → `deep_verify_edges` -/
-def deep_edge_revision_of (m : MemoIn) : Nat := deep_edge_revision (deep_edges_old_verified_at m) m.changedAt
-
-/-- `old_header.revisions.changed_at > revision || old_header.may_be_provisional()`  (maybe_changed_after_cold, src/function/maybe_changed_after.rs) -/
-def cold_verified_changed (m : MemoIn) (revision : Nat) : Bool :=
-  (decide (m.changedAt > revision) || m.mayBeProvisional)
-
-/-- `!old_header.may_be_provisional()`  (maybe_changed_after_cold, src/function/maybe_changed_after.rs) -/
-def cold_may_reexecute (m : MemoIn) : Bool :=
-  (!m.mayBeProvisional)
-
-/-- `old_memo.value.is_none()`  (maybe_changed_after_cold, src/function/maybe_changed_after.rs) -/
-def cold_evicted (m : MemoIn) : Bool :=
-  (!m.hasValue)
-
-/-- `memo.header.revisions.changed_at`  (maybe_changed_after_cold, src/function/maybe_changed_after.rs) -/
-def reexecuted_changed_at (m : MemoIn) : Nat :=
-  m.changedAt
-
-/-- `changed_at > revision || memo.header.may_be_provisional()`  (maybe_changed_after_cold, src/function/maybe_changed_after.rs (`m` = the memo just produced by `execute`)) -/
-def reexecuted_changed (m : MemoIn) (revision : Nat) : Bool :=
-  (decide ((reexecuted_changed_at m) > revision) || m.mayBeProvisional)
-
-/-- `can_shallow_update.yes() && !memo.header.may_be_provisional()`  (fetch_hot, src/function/fetch.rs) -/
-def fetch_hot_applies (m : MemoIn) (can_shallow_update : Nat) : Bool :=
-  ((ShallowUpdate.yes can_shallow_update) && (!m.mayBeProvisional))
-
-/-- `old_memo.value.is_some() && old_memo.header.verify_memo( db.into(), &claim_guard, C::CYCLE_STRATEGY, #[cfg(feature = "detailed-trace")] true, )`  (fetch_cold (after `if let Some(old_memo) = opt_old_memo &&`), src/function/fetch.rs) -/
-def fetch_cold_reuses (m : MemoIn) (verified : Bool) : Bool :=
-  (m.hasValue && verified)
-
-/-- where an arm of `match ….try_claim(…)` goes -/
-inductive ClaimExit where
-  /-- the arm evaluates to the claim guard: execution continues below the `match` -/
-  | continue_
-  /-- the function returns WITHOUT an answer (`ColdResult::Retry` / `None`): the caller's loop starts over -/
-  | retry
-  /-- the cycle handler answers -/
-  | cycle
-  /-- the arm reads the memo table and may answer from what it finds (`checksFinal`: some
-      `may_be_provisional` / `verify_memo` test occurs in the arm) -/
-  | answerFromMemo (checksFinal : Bool)
-deriving DecidableEq, Repr
-
-/-- one arm of `match ….try_claim(…)` -/
-structure ClaimArm where
-  /-- `blocked_on.block_on(zalsa)` is called -/
-  blocks : Bool
-  /-- its result is not bound to a name (`let _ = …`) -/
-  blockResultIgnored : Bool
-  /-- number of memo-table reads inside the arm -/
-  memoReads : Nat
-  exit : ClaimExit
-deriving DecidableEq, Repr
-
-/-- arm `ClaimResult::Claimed(guard) => guard`  (maybe_changed_after_cold::inner, src/function/maybe_changed_after.rs) -/
-def mca_on_claimed : ClaimArm :=
-  { blocks := false, blockResultIgnored := true, memoReads := 0, exit := .continue_ }
-
-/-- arm `ClaimResult::Running(blocked_on) => let _ = blocked_on.block_on(zalsa); return ColdResult::Retry;`  (maybe_changed_after_cold::inner, src/function/maybe_changed_after.rs) -/
-def mca_on_running : ClaimArm :=
-  { blocks := true, blockResultIgnored := true, memoReads := 0, exit := .retry }
-
-/-- arm `ClaimResult::Cycle { .. } => return ColdResult::Verified(maybe_changed_after_cold_cycle( zalsa_local, database_key_index, cycle_recovery_strategy, ));`  (maybe_changed_after_cold::inner, src/function/maybe_changed_after.rs) -/
-def mca_on_cycle : ClaimArm :=
-  { blocks := false, blockResultIgnored := true, memoReads := 0, exit := .cycle }
-
-/-- number of arms of the claim match (maybe_changed_after_cold::inner, src/function/maybe_changed_after.rs) -/
-def mca_claim_arms : Nat := 3
-
-/-- memo-table reads in the statements BEFORE the claim statement (maybe_changed_after_cold::inner, src/function/maybe_changed_after.rs) -/
-def mca_memo_reads_before_claim : Nat := 0
-
-/-- memo-table reads in the statements AFTER the claim statement (maybe_changed_after_cold::inner, src/function/maybe_changed_after.rs) -/
-def mca_memo_reads_after_claim : Nat := 1
-
-/-- `try_claim(…, Reentrancy::Deny)` (maybe_changed_after_cold::inner, src/function/maybe_changed_after.rs) -/
-def mca_reentrancy_allowed : Bool := false
-
-/-- the statement right after the claim is `let Some(old_memo) = memo_slot.get_erased() else { return Verified(changed) };` (maybe_changed_after_cold::inner, src/function/maybe_changed_after.rs) -/
-def mca_rereads_after_claim : Bool := true
-
-/-- `ColdResult::Retry => None`: a retry gives the caller's loop no answer (maybe_changed_after_cold, src/function/maybe_changed_after.rs) -/
-def mca_retry_is_no_answer : Bool := true
-
-/-- arm `ClaimResult::Claimed(guard) => guard`  (fetch_cold, src/function/fetch.rs) -/
-def fetch_on_claimed : ClaimArm :=
-  { blocks := false, blockResultIgnored := true, memoReads := 0, exit := .continue_ }
-
-/-- arm `ClaimResult::Running(blocked_on) => let _ = blocked_on.block_on(zalsa); return None;`  (fetch_cold, src/function/fetch.rs) -/
-def fetch_on_running : ClaimArm :=
-  { blocks := true, blockResultIgnored := true, memoReads := 0, exit := .retry }
-
-/-- arm `ClaimResult::Cycle { .. } => return Some(self.fetch_cold_cycle( zalsa, zalsa_local, db, id, database_key_index, memo_ingredient_index, ));`  (fetch_cold, src/function/fetch.rs) -/
-def fetch_on_cycle : ClaimArm :=
-  { blocks := false, blockResultIgnored := true, memoReads := 0, exit := .cycle }
-
-/-- number of arms of the claim match (fetch_cold, src/function/fetch.rs) -/
-def fetch_claim_arms : Nat := 3
-
-/-- memo-table reads in the statements BEFORE the claim statement (fetch_cold, src/function/fetch.rs) -/
-def fetch_memo_reads_before_claim : Nat := 0
-
-/-- memo-table reads in the statements AFTER the claim statement (fetch_cold, src/function/fetch.rs) -/
-def fetch_memo_reads_after_claim : Nat := 1
-
-/-- `try_claim(…, Reentrancy::Allow)` (fetch_cold, src/function/fetch.rs) -/
-def fetch_reentrancy_allowed : Bool := true
-
-/-- the statement right after the claim is `let opt_old_memo = self.get_memo_from_table_for(…);` (fetch_cold, src/function/fetch.rs) -/
-def fetch_rereads_after_claim : Bool := true
-
-end SalsaVerif.Gen.LogicVerify
+/- translation failed: anchor '\\bif\\s+(?=can_shallow_update\\.yes\\(\\))' matches 0 times in MemoHeader::maybe_changed_after_hot, src/function/maybe_changed_after.rs -/
+#eval (translation_failed : Nat)
